@@ -13,7 +13,7 @@ import json
 import gen
 import rfc8032
 from core import World, register, Hbytes, HarnessError
-from refmodel import (Ledger, counted_keys, independent_entry_valid, keylist_ok, payload_hash, pgp_digest,
+from refmodel import (date_status, Ledger, counted_keys, independent_entry_valid, keylist_ok, payload_hash, pgp_digest,
                       refcanon, threshold_ok, typed_eq, version_successor)
 from seams import (LibCalls, Patcher, SimFS, SimClockState, install_clock, load_library, make_clock_class, exc_site)
 from world_envelope import GpgStub, KeyRing, _tweak_entry
@@ -167,6 +167,13 @@ class ChainWorld(World):
 
     def model_root(self, T, N):
         """(accept?, reason, plainly_wellformed?)"""
+        for D in (T, N):
+            # independent of the library's checker: a date the standard parser refuses makes the document malformed
+            sg = D.get("signed") if isinstance(D, dict) else None
+            if isinstance(sg, dict):
+                for f in ("expiration", "timestamp"):
+                    if f in sg and date_status(sg[f]) == "invalid":
+                        return False, "malformed-date", False
         if not self._wf(T) or not self._wf(N):
             return False, "malformed", False
         ts, ns = T["signed"], N["signed"]
@@ -230,7 +237,9 @@ class ChainWorld(World):
         if o.ok and not accept:
             if reason in ("sigs-old", "sigs-new") and self._indep_ok(T, N):
                 raise HarnessError("chain model rejects (%s) but independent verification accepts" % reason)
-            run.violate(("C03", "C04"), "root-accepted-wrongly",
+            # a shortage of signatures that is not reported as a signature error is also a breach of the quorum rule (C01) and of
+            # the error mapping (C13)
+            run.violate(("C03", "C04", "C01", "C13") if reason in ("sigs-old", "sigs-new") else ("C03", "C04"), "root-accepted-wrongly",
                         "%s: verify_root accepted although the chain model rejects it (%s); trusted version %r, offered "
                         "version %r, margins old/new %r" % (ctx, reason, _ver(T), _ver(N), m), "root-accepted:" + reason)
             return True
@@ -362,7 +371,46 @@ class ChainWorld(World):
                     self._pgp_sign(doc, i, "simgpg", op.get("hdr"))
             except (TypeError, AssertionError, KeyError, AttributeError):
                 break
+        listed = set()
+        for R in list(self.honest_chain) + ([self.staged["doc"]] if isinstance(self.staged, dict) and isinstance(self.staged.get("doc"), dict) else []):
+            try:
+                listed |= set(R["signed"]["delegations"]["root"]["pubkeys"])
+            except (KeyError, TypeError, AttributeError):
+                pass
+        for i in op.get("outsiders", []):
+            if i < len(self.keys) and self.keys.pub[i] in listed and i not in self.compromised:
+                continue            # an honest holder's key: the attacker cannot sign with it
+            if isinstance(doc.get("signatures"), dict) and i < len(self.keys):
+                self.compromised.add(i)       # the attacker's own key: his for the rest of the run, whoever lists it later
+                try:
+                    self._pgp_sign(doc, i, "simgpg", op.get("hdr"))
+                except (TypeError, AssertionError, KeyError, AttributeError):
+                    break
         self._apply_mods(doc, op.get("mods_after", []))
+        if op.get("flood") and isinstance(doc.get("signatures"), dict):
+            import random as _random
+            _, n, seed, front = op["flood"][:4]
+            r = _random.Random(seed)
+            wf = r.random() < 0.7          # entries that pass the envelope's format check (and are then ignored one by one) or arbitrary junk
+            hx = lambda m: "".join(r.choice("0123456789abcdef") for _ in range(m))  # noqa: E731
+            junk = {}
+            while len(junk) < n:
+                if wf and r.random() < 0.25:
+                    # names that are not keys at all (notes a relay or tool left in the unsigned part), well-formed entries
+                    k = r.choice(["note", "\ud800", "\udc80abc", "\u00e9", "\U0001f600", "", " ", "comment-%d" % len(junk), "\ud83d", "a\x00b", "\u2028"]) + ("" if r.random() < 0.5 else str(len(junk)))
+                    ent = {"signature": hx(128)} if r.random() < 0.5 else {"other_headers": hx(12), "signature": hx(128)}
+                elif wf:
+                    k = hx(64)
+                    ent = {"signature": hx(128)} if r.random() < 0.5 else {"other_headers": hx(r.choice([2, 12, 70])), "signature": hx(128)}
+                else:
+                    k, ent = gen.junk_key(r, self.keys.pub), gen.junk_entry(r)
+                if k not in self.keys.pub and k not in doc["signatures"]:
+                    junk[k] = ent
+            if front:
+                junk.update(doc["signatures"])
+                doc["signatures"] = junk
+            else:
+                doc["signatures"].update(junk)
         for k in op.get("kinds", []):
             self.run.fault("attack_" + k)
         self.crafted.append(doc)
@@ -417,6 +465,13 @@ class ChainWorld(World):
                         doc["signatures"][b] = copy.deepcopy(doc["signatures"][a])
                 elif kind == "expiration":
                     s["expiration"] = m[1]
+                elif kind == "clone_under":   # ["clone_under", a, b, fresh signature hex or None]: a's entry (its notes and headers) copied under b
+                    a, b = self.keys.pub[m[1]], self.keys.pub[m[2]]
+                    if a in doc["signatures"] and isinstance(doc["signatures"][a], dict):
+                        e = copy.deepcopy(doc["signatures"][a])
+                        if m[3]:
+                            e["signature"] = m[3]
+                        doc["signatures"][b] = e
             except (KeyError, TypeError, IndexError, AttributeError):
                 continue
 
@@ -454,7 +509,7 @@ class ChainWorld(World):
             path = self._cache_path(c)
             w = self.calls.raw("write_metadata_to_file", N, path)
             if not w.ok:
-                self.run.violate(("C08",), "persist-failed", "write_metadata_to_file raised %r" % (w,))
+                self.run.violate(("C08", "C04"), "persist-failed", "write_metadata_to_file raised %r for a root the client had just verified and adopted" % (w,))
                 return
             cl["trusted"] = N
             cl["history"].append(digest(N))
@@ -728,12 +783,13 @@ class ChainWorld(World):
         base = rng.choice(bases)
         mods, after, kinds = [], [], []
         signers = []
+        outsiders = []
         hx = lambda n: "".join(rng.choice("0123456789abcdef") for _ in range(n))  # noqa: E731
         kind = rng.choice(["forge_next", "forge_next", "rollback", "skip", "same_version", "self_appoint",
                            "lower_threshold", "type_flip", "type_flip_after", "raw_sigs", "junk", "tweak", "drop_fields",
                            "double_count", "double_count",
                            "respell", "misfile", "confuse", "drop_root_delegation", "subthreshold", "new_only",
-                           "old_only_unmeetable", "resign_stale"])
+                           "old_only_unmeetable", "resign_stale", "outsider_takeover", "outsider_takeover", "bad_date", "shared_note"])
         kinds.append(kind)
         if kind == "forge_next":
             mods = [["version_delta", 1], ["strip_sigs"]]
@@ -835,6 +891,43 @@ class ChainWorld(World):
             mods = [["version_delta", 1], rng.choice([["drop_root_delegation"], ["rename_root_delegation", rng.choice(["Root", "root.json", "root "])]]),
                     ["strip_sigs"]]
             signers = comp
+        elif kind == "outsider_takeover":
+            # keys the attacker made himself: listed nowhere in the trusted root, declared as the new root keys and signing validly
+            try:
+                listed = set(self.head["signed"]["delegations"]["root"]["pubkeys"])
+            except (KeyError, TypeError, AttributeError):
+                listed = set()
+            out = [i for i in range(nk) if self.keys.pub[i] not in listed][:rng.randint(1, 3)] or [nk - 1]
+            if rng.random() < 0.7:
+                base = ["trusted", rng.randrange(len(self.clients))]
+            mods = [["version_delta", 1], ["root_keys", out], ["root_threshold", rng.randint(1, len(out))], ["strip_sigs"]]
+            signers = comp[:rng.randint(0, max(0, len(comp) - 1))] if comp and rng.random() < 0.4 else []
+            outsiders = out
+        elif kind == "shared_note":
+            # the holder of too few keys signs, and files look-alike entries (same unsigned notes / headers, other signature bytes)
+            # under the keys he does not hold
+            mods = [["version_delta", 1], ["strip_sigs"]]
+            signers = comp
+            if rng.random() < 0.7:
+                base = ["trusted", rng.randrange(len(self.clients))]
+            try:
+                listed = [i for i in range(nk) if self.keys.pub[i] in self._base(base)["signed"]["delegations"]["root"]["pubkeys"]]
+            except (KeyError, TypeError, AttributeError):
+                listed = list(range(nk))
+            if comp:
+                a = comp[0]
+                note = rng.choice([self.keys.fpr[a], hx(40), hx(40)])
+                after = [["tweak", i, ["see_also", note]] for i in comp if rng.random() < 0.8]
+                for b_ in listed:
+                    if b_ not in comp:
+                        after.append(["clone_under", a, b_, rng.choice([hx(128), hx(128), None])])
+        elif kind == "bad_date":
+            # a correctly signed successor whose dates do not exist / are not dates
+            bad = rng.choice(["2027-02-29T00:00:00Z", "2100-02-29T12:00:00Z", "2031-02-30T00:00:00Z", "2031-04-31T00:00:00Z", "2031-06-31T23:59:59Z",
+                              "2031-13-01T00:00:00Z", "2031-00-10T00:00:00Z", "2031-01-01T24:00:00Z", "2031-01-01T00:60:00Z", "2031-01-01T00:00:61Z",
+                              "2031-01-32T00:00:00Z", "0000-01-01T00:00:00Z", "2031-01-01T00:00:00", "2031-01-01 00:00:00Z", "2031-01-01T00:00:00+00:00"])
+            mods = [["version_delta", 1], ["set", ["signed", rng.choice(["expiration", "expiration", "timestamp"])], bad], ["strip_sigs"]]
+            signers = comp
         elif kind == "resign_stale":
             # retired keys (compromised after removal) sign a successor of the *current* head
             mods = [["version_delta", 1], ["strip_sigs"]]
@@ -853,7 +946,16 @@ class ChainWorld(World):
                 after = after + [["misfile", rng.choice(cand), rng.randrange(nk)]]
             else:
                 after = after + [["junk", gen.junk_key(rng, self.keys.pub), gen.junk_entry(rng)]]
+        flood = None
+        if rng.random() < (0.5 if kind == "outsider_takeover" else 0.12):
+            # the unsigned signature map padded with entries that will be ignored, before or after the real ones
+            flood = ["flood", rng.choice([7, 8, 9, 9, 10, 12, 30, 99, 100, 101, 130, 1100]), rng.getrandbits(30), rng.random() < 0.7]
+            kinds.append("flood")
         op = {"op": "craft", "base": base, "mods": mods, "signers": signers, "mods_after": after, "kinds": kinds, "dt": dt}
+        if outsiders:
+            op["outsiders"] = outsiders
+        if flood:
+            op["flood"] = flood
         if rng.random() < 0.15:
             op["hdr"] = hx(rng.choice([2, 12, 70]))
         return op
